@@ -80,11 +80,15 @@ PROPS.update({
         theorems=T("C05", "inv_init", "inv_step", "never_faults", "others_untouched", "inv_reachable", "progress", "refines",
                    "refines_reachable", "observed_value", "exclusive", "no_leak", "reachable_finite", "no_leak_reachable",
                    "moved_from_valid"),
-        rule="histories of buffer operations with a full snapshot of every live object after every step: every sequence of 2 (quick) / 3 (thorough) operations "
-             "from a 25-entry menu (clear, copy/move assignment incl. self, allocate, allocate+fill around the limit, destroy+reconstruct by copy/move) applied to three "
-             "objects in all 6x6x3 size-class combinations, plus seeded random histories of 30 operations over 3..6 objects for all four element types; ASan + LSan. "
-             "non-trivial = more than 3 operations",
+        rule="histories of buffer operations with a full snapshot of every live object after every step: every sequence of 2 operations (quick: char, char32_t; "
+             "thorough: all four element types) and every sequence of 3 operations (thorough: char, char32_t) from a 27-entry menu (clear, copy/move assignment incl. "
+             "self, allocate, allocate+fill around the limit, destroy+reconstruct by copy/move) applied to three objects in all 6x6x3 (depth 3: 6x6x2) size-class "
+             "combinations, plus 4 000 / 60 000 seeded random histories of 30 operations over 3..6 objects for all four element types; ASan + LSan + exact block "
+             "accounting. non-trivial = more than 3 operations",
         exhaustive={"quick": False, "thorough": False},
+        # a defective tree can abort a few percent of the histories; the runner gives up (exit 2, no verdict) after 400
+        # restarts per harness process, so the work is cut into more, smaller slices than the default 16
+        slices={"quick": 64, "thorough": 128},
     ),
 })
 
